@@ -367,7 +367,7 @@ func runC14Cluster(r *Run, stratum string) *Violation {
 	}
 
 	maxCrashes := 1 + g.Choose("ncrashes", 4)
-	crashes, graceful, restarts, resyncs, holeFaults := 0, 0, 0, 0, 0
+	crashes, graceful, restarts, resyncs, holeFaults, epochFaults, resyncUnit := 0, 0, 0, 0, 0, 0, -1
 	stalled := -1 // index of a node whose requests are not served for now
 	start()
 	for r.BeginStep() {
@@ -486,13 +486,27 @@ func runC14Cluster(r *Run, stratum string) *Violation {
 		fedSome := l.reader != nil && l.fedTo > l.reader.left
 		l.mu.Unlock()
 		holeNow := maxInInc > contiguous() // this incarnation committed (and was told so) a unit behind an uncommitted one
-		if l.getPhase() == 1 && (crashes < maxCrashes && fedSome || holeNow && holeFaults < 2) {
+		// shortly after a full resync (a few units committed under the restarted numbering) is where stale recovery
+		// records of the time before can still win over the new ones: stop there as well
+		sinceResync := 0
+		if resyncs > 0 {
+			for i := resyncUnit + 1; i < nUnits; i++ {
+				if committed[i] {
+					sinceResync++
+				}
+			}
+		}
+		freshEpoch := resyncs > 0 && sinceResync >= 1 && sinceResync <= 3 && epochFaults < 2
+		if l.getPhase() == 1 && (crashes < maxCrashes && fedSome || holeNow && holeFaults < 2 || freshEpoch) {
 			w := 1
 			if len(l.ready()) > 0 {
 				w = 3
 			}
 			if stalled >= 0 && len(l.ready()) > len(ready) {
 				w = 6 // in-flight requests on the stalled node: the state a hole in the journal comes from
+			}
+			if freshEpoch {
+				w = 10
 			}
 			if maxInInc > contiguous() {
 				simrt.Probe("c14c_hole_while_running")
@@ -501,6 +515,9 @@ func runC14Cluster(r *Run, stratum string) *Violation {
 			acts = append(acts, pipeAction{"crash", w, func() {
 				if holeNow {
 					holeFaults++
+				}
+				if freshEpoch {
+					epochFaults++
 				}
 				crashes++
 				crash()
@@ -512,6 +529,9 @@ func runC14Cluster(r *Run, stratum string) *Violation {
 				if holeNow {
 					holeFaults++
 				}
+				if freshEpoch {
+					epochFaults++
+				}
 				crashes++
 				connLoss()
 				observe()
@@ -522,7 +542,7 @@ func runC14Cluster(r *Run, stratum string) *Violation {
 				// a full resynchronisation under the same replication id: the link is stopped, a snapshot taken at a
 				// later source offset R is loaded (everything up to R is on the target now) and the root checkpoint
 				// moves to R. The recovery records of the incremental phase before it stay where they are (stale).
-				acts = append(acts, pipeAction{"full-resync", 1, func() {
+				acts = append(acts, pipeAction{"full-resync", 3, func() {
 					resyncs++
 					stalled = -1
 					r.W.Fault("full_resync")
@@ -542,6 +562,7 @@ func runC14Cluster(r *Run, stratum string) *Violation {
 					for i := 0; i <= j; i++ {
 						committed[i] = true
 					}
+					resyncUnit = j
 					R := units[j].endOff
 					root.SetHash(0, l.cpName, map[string]string{
 						l.runID + "_runid":   l.runID,
